@@ -159,14 +159,14 @@ func (s *Sig) add(r Rec) {
 	r.Poll = s.Polls
 	r.Fired = s.Fired
 	s.Trace = append(s.Trace, r)
-	abort := false
+	abort := len(s.Trace) > 200000 // runaway run: stop it before it exhausts memory
 	if s.Fired {
 		s.AfterHit++
 		lim := s.Limit
 		if lim == 0 {
 			lim = 100
 		}
-		abort = s.AfterHit >= lim
+		abort = abort || s.AfterHit >= lim
 	}
 	s.mu.Unlock()
 	if abort {
@@ -259,9 +259,34 @@ const TraceKey runtimev2.TaskP = "verif-trace"
 type Trace2 struct {
 	mu    sync.Mutex
 	Trace []Rec
+	Sig   *Sig // optional: the signal of the run, so records know whether it had fired
 }
 
 func (t *Trace2) add(r Rec) {
+	if t.Sig != nil {
+		t.Sig.mu.Lock()
+		r.Poll, r.Fired = t.Sig.Polls, t.Sig.Fired
+		abort := false
+		if t.Sig.Fired {
+			t.Sig.AfterHit++
+			lim := t.Sig.Limit
+			if lim == 0 {
+				lim = 100
+			}
+			abort = t.Sig.AfterHit >= lim
+		}
+		t.Sig.mu.Unlock()
+		t.mu.Lock()
+		t.Trace = append(t.Trace, r)
+		if len(t.Trace) > 200000 {
+			abort = true
+		}
+		t.mu.Unlock()
+		if abort {
+			panic(AbortSentinel)
+		}
+		return
+	}
 	t.mu.Lock()
 	t.Trace = append(t.Trace, r)
 	t.mu.Unlock()
